@@ -8,6 +8,7 @@ import (
 
 	sdk "github.com/cosmos/cosmos-sdk/types"
 
+	"github.com/comdex-official/comdex/app/wasm/bindings"
 	vaulttypes "github.com/comdex-official/comdex/x/vault/types"
 
 	"verif/ev"
@@ -60,6 +61,38 @@ func decRat(d sdk.Dec) *big.Rat {
 
 // ---- C03 monitor ----
 
+// stableCeiling: after a successful stable-mint create / deposit the principal recorded on the product's stable-mint
+// vaults does not exceed the product's debt ceiling (the ceiling in force is read from the chain: governance may
+// have changed it).
+func (m *c03Mon) stableCeiling(post *cdpSnap, e *cdpEvent, prodID uint64) {
+	p := m.u.prodByID[prodID]
+	if p == nil || !p.P.IsStableMintVault || !e.Res.OK() {
+		return
+	}
+	if es, ok := post.ESM[p.App]; ok && es.Status {
+		return
+	}
+	cur, found := m.u.c.App.AssetKeeper.GetPairsVault(m.u.c.Ctx(), prodID)
+	if !found {
+		return
+	}
+	m.rec.Eval(1)
+	sum := new(big.Int)
+	for _, sv := range post.Stable {
+		if sv.ExtendedPairVaultID == prodID {
+			sum.Add(sum, sv.AmountOut.BigInt())
+		}
+	}
+	m.rec.Count("stable_ceiling_checked", 1)
+	if room := new(big.Int).Sub(cur.DebtCeiling.BigInt(), sum); room.Sign() >= 0 && room.Cmp(new(big.Int).Mul(p.Out.Dec, big.NewInt(10))) <= 0 {
+		m.rec.Count("stable_mints_accepted_within_10_tokens_of_the_ceiling", 1)
+	}
+	if sum.Cmp(cur.DebtCeiling.BigInt()) > 0 {
+		m.rec.Violate(fmt.Sprintf("C03/%s/principal-exceeds-debt-ceiling", e.Op), fmt.Sprintf("stable-mint principal outstanding %s > ceiling %s", sum, cur.DebtCeiling),
+			map[string]interface{}{"event": e.String(), "product": p.ID, "pair": p.P.PairName, "draw_down_fee": cur.DrawDownFee.String()})
+	}
+}
+
 type c03Mon struct {
 	u   *cdpU
 	rec *ev.Rec
@@ -92,6 +125,12 @@ func (m *c03Mon) Observe(pre, post *cdpSnap, e *cdpEvent) {
 		prodID, vaultID = x.ExtendedPairVaultId, x.UserVaultId
 	case *vaulttypes.MsgDepositRequest:
 		prodID, vaultID = x.ExtendedPairVaultId, x.UserVaultId
+	case *vaulttypes.MsgCreateStableMintRequest:
+		m.stableCeiling(post, e, x.ExtendedPairVaultId)
+		return
+	case *vaulttypes.MsgDepositStableMintRequest:
+		m.stableCeiling(post, e, x.ExtendedPairVaultId)
+		return
 	default:
 		return
 	}
@@ -351,6 +390,76 @@ func TestC03(t *testing.T) {
 				pout, _ := u.outPrice(p, r.last)
 				in := solveCollateral(p, debt.BigInt(), pin, pout, decRat(p.P.MinCr))
 				r.tx("vault_create", a, &vaulttypes.MsgCreateRequest{From: a.Addr.String(), AppId: p.App, ExtendedPairVaultId: p.ID, AmountIn: sdk.NewIntFromBigInt(in).AddRaw(10), AmountOut: debt}, fmt.Sprintf("ceiling prod=%d out=%s", p.ID, debt))
+			}
+		}
+		// stable-mint products against a ceiling that governance has just set 1000 tokens above what is outstanding:
+		// mint 900, redeem 500 (with a draw-down fee the fee part stays in circulation), then mints around the room left
+		for _, p := range u.products {
+			if !p.P.IsStableMintVault {
+				continue
+			}
+			cur, found := c.App.AssetKeeper.GetPairsVault(c.Ctx(), p.ID)
+			if !found {
+				continue
+			}
+			outstanding := func() *big.Int {
+				s := new(big.Int)
+				for _, sv := range r.last.Stable {
+					if sv.ExtendedPairVaultID == p.ID {
+						s.Add(s, sv.AmountOut.BigInt())
+					}
+				}
+				return s
+			}
+			tok := func(n int64) *big.Int { return new(big.Int).Mul(p.Out.Dec, big.NewInt(n)) }
+			toIn := func(out *big.Int) sdk.Int { // collateral units that mint `out` (whole tokens keep it exact)
+				return sdk.NewIntFromBigInt(new(big.Int).Quo(new(big.Int).Mul(out, p.In.Dec), p.Out.Dec))
+			}
+			ceiling := sdk.NewIntFromBigInt(new(big.Int).Add(outstanding(), tok(1000)))
+			r.env("gov-product", fmt.Sprintf("product %d: debt ceiling %s", p.ID, ceiling), func() {
+				_ = c.Gov(bindings.ComdexMessages{MsgUpdatePairsVault: &bindings.MsgUpdatePairsVault{AppID: p.App, ExtPairID: p.ID, StabilityFee: cur.StabilityFee, ClosingFee: cur.ClosingFee, LiquidationPenalty: cur.LiquidationPenalty,
+					DrawDownFee: cur.DrawDownFee, IsVaultActive: true, MinCr: cur.MinCr, DebtCeiling: ceiling, DebtFloor: cur.DebtFloor, MinUsdValueLeft: cur.MinUsdValueLeft}})
+			})
+			if now, ok := c.App.AssetKeeper.GetPairsVault(c.Ctx(), p.ID); !ok || !now.DebtCeiling.Equal(ceiling) {
+				continue
+			}
+			p.P.DebtCeiling = ceiling
+			a := c.Accts[rnd.Intn(len(c.Accts))]
+			mintOp := func(out *big.Int, why string) {
+				var sid uint64
+				for _, sv := range r.last.Stable {
+					if sv.ExtendedPairVaultID == p.ID {
+						sid = sv.Id
+					}
+				}
+				if sid == 0 {
+					r.tx("stable_create", a, &vaulttypes.MsgCreateStableMintRequest{From: a.Addr.String(), AppId: p.App, ExtendedPairVaultId: p.ID, Amount: toIn(out)}, fmt.Sprintf("ceiling prod=%d out=%s (%s)", p.ID, out, why))
+				} else {
+					r.tx("stable_deposit", a, &vaulttypes.MsgDepositStableMintRequest{From: a.Addr.String(), AppId: p.App, ExtendedPairVaultId: p.ID, Amount: toIn(out), StableVaultId: sid}, fmt.Sprintf("ceiling prod=%d out=%s (%s)", p.ID, out, why))
+				}
+			}
+			mintOp(tok(900), "first")
+			for k := 0; k < 3; k++ {
+				var sid uint64
+				for _, sv := range r.last.Stable {
+					if sv.ExtendedPairVaultID == p.ID {
+						sid = sv.Id
+					}
+				}
+				if sid == 0 {
+					break
+				}
+				r.tx("stable_withdraw", a, &vaulttypes.MsgWithdrawStableMintRequest{From: a.Addr.String(), AppId: p.App, ExtendedPairVaultId: p.ID, Amount: sdk.NewIntFromBigInt(tok(int64(150 + 50*k))), StableVaultId: sid}, fmt.Sprintf("ceiling prod=%d redeem", p.ID))
+			}
+			// room left by the records; whole tokens around it, from clearly too much down to what fits
+			for _, extra := range []int64{20, 8, 3, 1, 0, -1} {
+				room := new(big.Int).Sub(ceiling.BigInt(), outstanding())
+				room.Quo(room, p.Out.Dec).Mul(room, p.Out.Dec) // whole tokens
+				amt := new(big.Int).Add(room, tok(extra))
+				if amt.Sign() <= 0 {
+					continue
+				}
+				mintOp(amt, fmt.Sprintf("room %s, %+d tokens", room, extra))
 			}
 		}
 		// and a stretch of the mixed workload under the same monitor
